@@ -10,8 +10,13 @@ import JsonV.Spec.PDA
 import JsonV.Lemmas.StateEntry
 import JsonV.Lemmas.StateRefine
 import JsonV.Lemmas.StateRun
+import JsonV.Model.Encoder
+import JsonV.Spec.Render
+import JsonV.Lemmas.EncNoop
+import JsonV.Lemmas.EncRender
 import JsonV.Gen.Straight
 import JsonV.Gen.Constants
+import JsonV.Gen.Tables
 
 namespace JsonV.Props.C06
 open JsonV.Model JsonV.Gen JsonV.Spec JsonV.Spec.PDA
@@ -62,14 +67,29 @@ theorem tie_invalidateNamespace (e : BitVec 64) :
 theorem tie_isValidNamespace (e : BitVec 64) :
     jsontext_stateEntry_isValidNamespace e = Entry.isValidNamespace e := rfl
 
+/-- The Encoder model's `normKind` is the regenerated `normKind[256]` table of jsontext/token.go. -/
+theorem tie_normKind : ∀ c : Fin 256,
+    (JsonV.Model.Encoder.normKind (UInt8.ofNat c.val)).toNat = jsontext_normKind.getD c.val 999 := by
+  decide +kernel
+
+/-- The Encoder model's `escapeASCII` is the regenerated `escapeASCII[128]` table of jsonwire/encode.go. -/
+theorem tie_escapeASCII : ∀ c : Fin 128,
+    JsonV.Model.Encoder.escapeASCII (UInt8.ofNat c.val) = (jsonwire_escapeASCII.getD c.val 999 != 0) := by
+  decide +kernel
+
 /-! ## Part 2 — the state machine is the grammar's push-down automaton -/
 
-/-- state.go "If an error is returned, the state is not mutated": in the model an operation yields
-either a new machine or an error, never both; the executable content of this sentence is
-`sm_refines`/`sm_spec` below together with the harness comparing the raw words after every call. -/
-theorem sm_noop (max : Nat) (m : Machine) (k : Kind) (e : SMErr) (h : smStep max m k = .error e) :
-    ∀ ks, smRun max m (k :: ks) = .error e := by
-  intro ks; simp [smRun, h]
+/-- state.go "If an error is returned, the state is not mutated".  In the model an operation yields
+either a new machine or an error (never both), so the observable content of the sentence is: a run in
+which rejected operations are simply skipped ends in the same machine as the run of the accepted
+operations alone, none of which is rejected.  (The harness checks the raw words of the real machine
+after every rejected operation.) -/
+theorem sm_noop (max : Nat) (m : Machine) (ks : List Kind) :
+    smRun max m (smAccepted max m ks) = .ok (smRunSkip max m ks) :=
+  smRun_accepted max ks m
+
+example : smAccepted 10000 Machine.init [.beginObj, .num, .endArr, .str, .endObj, .lit, .endObj] =
+    [.beginObj, .str, .lit, .endObj] := by decide
 
 /-- **Refinement** of one operation.  For a machine whose words carry no namespace bits, counts
 at most `b` (with `b + 1 < 2^61`, so that `Increment` cannot carry into the flag bits) and at most
@@ -147,5 +167,87 @@ theorem need_indent (m : Machine) (next : Kind) : m.needIndent next.byte = inden
 example : ∃ m, smRun 10000 Machine.init [.beginArr, .num] = .ok m ∧
     m.needDelim Kind.num.byte = 0x2c ∧ m.needDelim Kind.endArr.byte = 0 ∧
     m.needIndent Kind.num.byte = 2 ∧ m.needIndent Kind.endArr.byte = 1 := ⟨_, rfl, by decide⟩
+
+
+/-! ## Part 3 — the Encoder model (Model/Encoder.lean; tied to encode.go by the `enc` correspondence) -/
+
+section Encoder
+open JsonV.Model.Encoder JsonV.Spec.Render JsonV.Lemmas.EncNoop JsonV.Lemmas.EncRender
+
+/-- A rejected `WriteToken` leaves the whole modelled state — output, machine (offsets, depth, indices),
+namespaces, options — exactly as it was. -/
+theorem wt_noop (e e' : Enc) (t : Tok) (err : EncErr) (h : writeToken e t = (e', some err)) : e' = e :=
+  writeToken_noop e t err e' h
+
+/-- A rejected `WriteValue` leaves the whole modelled state exactly as it was. -/
+theorem wv_noop (e e' : Enc) (v : Bytes) (err : EncErr) (h : writeValue e v = (e', some err)) : e' = e :=
+  writeValue_noop e v err e' h
+
+/-- Both kinds of rejection occur (the hypotheses above are satisfiable): a number where a name is
+required, and a truncated raw value. -/
+example : (writeToken (writeToken (Encoder.new {}) .beginObj).1 (.num [0x31])).2 = some (.sm .nonStringName) ∧
+    (writeValue (Encoder.new {}) [0x5b]).2 = some .unexpectedEOF := by decide
+
+/-- **After a rejection everything continues as if the call had never been made**: for every script of
+`WriteToken`/`WriteValue` calls from every state, the sub-script of accepted calls runs without any
+rejection and ends in the same state (same output, machine, namespaces). -/
+theorem after_reject (e : Enc) (cs : List Call) :
+    JsonV.Lemmas.EncNoop.run e (accepted e cs) =
+      ((JsonV.Lemmas.EncNoop.run e cs).1, (accepted e cs).map fun _ => none) :=
+  run_accepted cs e
+
+/-- **Accepted token scripts are viable and are rendered as the grammar prescribes.**  For every
+option set and every script of tokens (fewer than 2^61) all of which `WriteToken` accepts from a new
+encoder: the kinds form a viable prefix of a JSON stream, and the bytes produced are
+`Spec.Render.render` — separators from the PDA (colon after a name, comma before every non-first
+element, none at top level), `SpaceAfterColon/Comma`, `Multiline` indentation, the token texts, and
+one newline after each top-level value. -/
+theorem out_render (o : Opts) (ts : List Tok) (e : Enc) (hlen : ts.length < 2^61)
+    (h : runToks (Encoder.new o) ts = some e) :
+    e.out = render o ts ∧ Viable o.maxDepth (ts.map kindOf) ∧
+      run o.maxDepth PDA.init (ts.map kindOf) = some (abs e.m) := by
+  have := out_render_from ts (b := 0) (e := Encoder.new o) (e' := e) (inv_init _)
+    (by rw [show (Encoder.new o).m = Machine.init from rfl, abs_init]; exact bottomArr_init)
+    (by omega) h
+  obtain ⟨h1, _, h3⟩ := this
+  have h3' : run o.maxDepth PDA.init (ts.map kindOf) = some (abs e.m) := by
+    simpa [Encoder.new, abs_init] using h3
+  refine ⟨?_, ?_, h3'⟩
+  · simpa [Encoder.new, render, abs_init] using h1
+  · simp [Viable, h3']
+
+/-- Non-vacuity: an accepted script with nesting, a member, and two top-level values (compact and multiline). -/
+example : (runToks (Encoder.new {}) [.beginObj, .str [0x61], .beginArr, .num [0x31], .tru, .endArr, .endObj, .null]).map (·.out)
+      = some "{\"a\":[1,true]}\nnull\n".toUTF8.toList := by decide +kernel
+example : (runToks (Encoder.new { multiline := true, spaceAfterColon := true, indent := [0x09] })
+      [.beginObj, .str [0x61], .beginArr, .num [0x31], .endArr, .endObj]).map (·.out)
+      = some "{\n\t\"a\": [\n\t\t1\n\t]\n}\n".toUTF8.toList := by decide +kernel
+
+/-- FULL STATEMENT, not proved (validated by harness predicate (ii)): a `WriteToken` call after an
+accepted token script succeeds iff appending the token keeps the script viable, the token's string is
+well-formed UTF-8 (unless allowed) and, unless duplicates are allowed, it is not a member name already
+used in the innermost object.  Proved: accepted ⇒ viable (`out_render`), rejected ⇒ no effect (`wt_noop`). -/
+def wt_ok_iff_full : Prop :=
+  ∀ (o : Opts) (ts : List Tok) (e : Enc) (t : Tok), ts.length < 2^61 → runToks (Encoder.new o) ts = some e →
+    ((writeToken e t).2 = none ↔
+      (Viable o.maxDepth ((ts ++ [t]).map kindOf) ∧
+       (∀ s, t = .str s → (appendQuote o s).2 = false) ∧
+       (∀ s, t = .str s → o.allowDup = false → e.m.last.needObjectName = true →
+          ∀ top, e.ns.head? = some top → (unquote (appendQuote o s).1) ∉ top)))
+
+/-- FULL STATEMENT, not proved (validated by harness predicates (ii) and (iii)): `WriteValue v` after an
+accepted script succeeds iff `v` is exactly one well-formed JSON value (surrounded by optional
+whitespace, duplicate-free and valid UTF-8 unless allowed, nested no deeper than the limit allows) and
+its first token is acceptable; the output then grows by the separator and the reformatted value. -/
+def wv_ok_iff_full : Prop :=
+  ∀ (o : Opts) (ts : List Tok) (e : Enc) (v : Bytes), ts.length < 2^61 → runToks (Encoder.new o) ts = some e →
+    ((writeValue e v).2 = none ↔
+      ∃ out rest, reformatValue o (2 * v.length + 2) [] (skipWS v) e.m.depth = .ok (out, rest) ∧ skipWS rest = [] ∧
+        (smStep o.maxDepth e.m (match valueKind v with
+          | 0x22 => Kind.str | 0x30 => Kind.num | 0x7b => Kind.beginObj | 0x5b => Kind.beginArr | _ => Kind.lit)).isOk ∧
+        (valueKind v = 0x22 → o.allowDup = false → e.m.last.needObjectName = true →
+          ∀ top, e.ns.head? = some top → unquote out ∉ top))
+
+end Encoder
 
 end JsonV.Props.C06
